@@ -151,6 +151,44 @@ def _s2(program, res):
                         res.fail_at("C09-S2", m, f"groupby-drops-null-keys:{unparse(c.args[0])}",
                                     f"`{unparse(c)[:80]}` groups on user keys without dropna=False: pandas silently drops the "
                                     f"rows whose key is null (project loses that group; windowed extend computes NaN for it)", c)
+        # the grouping may sit in a helper of the model that is handed the user keys
+        for node in g.stmt_nodes(("stmt", "test", "return")):
+            root = node.cond if node.kind == "test" else node.stmt
+            for c in ast.walk(root):
+                if not (isinstance(c, ast.Call) and isinstance(c.func, ast.Attribute) and isinstance(c.func.value, ast.Name) and c.func.value.id == "self"):
+                    continue
+                h = pb.find_method(c.func.attr)
+                if h is None:
+                    continue
+                key_params = []
+                hparams = [p_ for p_ in h.params() if p_ != "self"]
+                for i, a in enumerate(c.args):
+                    rts = d.roots_at(node, a)
+                    if (depsmod.has_root(rts, "op.group_by") or depsmod.has_root(rts, "op.partition_by")) and i < len(hparams):
+                        key_params.append(hparams[i])
+                for kw_ in c.keywords:
+                    rts = d.roots_at(node, kw_.value)
+                    if kw_.arg and (depsmod.has_root(rts, "op.group_by") or depsmod.has_root(rts, "op.partition_by")):
+                        key_params.append(kw_.arg)
+                if not key_params:
+                    continue
+                hg = cfgmod.build(h.node)
+                hd = depsmod.Deps(hg, h.params())
+                for hn in hg.stmt_nodes(("stmt", "test", "return")):
+                    hroot = hn.cond if hn.kind == "test" else hn.stmt
+                    for gc in ast.walk(hroot):
+                        if isinstance(gc, ast.Call) and isinstance(gc.func, ast.Attribute) and gc.func.attr == "groupby" and gc.args \
+                                and any(depsmod.has_root(hd.roots_at(hn, gc.args[0]), kp) for kp in key_params):
+                            n += 1
+                            res.analysed(h)
+                            v = {k.arg: k.value for k in gc.keywords}.get("dropna")
+                            if isinstance(v, ast.Constant) and v.value is False:
+                                res.ok("C09-S2", f"{mname} -> {h.name}: groupby({unparse(gc.args[0])}) keeps the null-key group (dropna=False)")
+                            else:
+                                res.fail_at("C09-S2", h, f"groupby-drops-null-keys:{h.name}",
+                                            f"`{unparse(gc)[:90]}` (reached from {mname} with the user's keys) does not pass the constant dropna=False: whenever the expression "
+                                            f"is true pandas drops every row with a null in *any* key column — with keys (g, h) and rows null in one of them only, project "
+                                            f"loses those groups and a windowed extend computes NaN for them", gc)
     res.expect_count("C09-S2", "pandas groupby sites on user keys", n, 2)
     # helpers of the executor that group by caller-supplied key lists (the sanity check that a project result is keyed by its group columns)
     for m in pb.methods.values():
